@@ -35,8 +35,8 @@ func init() {
 			"Routes: ValidateBasic -> GetSigners -> registered handler (message server for the unroutable signature module) under recover on a branched context; the same message in a signed transaction through CheckTx-less DeliverTx (ErrPanic results); queries through the keeper's query server and through app.Query. " +
 			"Oracle: no panic anywhere except in a handler whose message ValidateBasic rejected (production never calls it). Non-trivial: the invocation reached a handler or a querier body. Distinct by (state variant, type, field-class vector) hash per case.",
 		Assumptions:   []string{"a worker process that dies inside a case (Go fatal error) is reported as a violation with the last logged case"},
-		Cases:         func(t string) int { return tierN(t, 480, 16000) },
-		MinNontrivial: func(t string) int { return tierN(t, 300, 10000) },
+		Cases:         func(t string) int { return tierN(t, 960, 16000) },
+		MinNontrivial: func(t string) int { return tierN(t, 600, 10000) },
 		Run:           runC20,
 		Extra: func(tier string, seed int64, agg *fw.Aggregate) {
 			if tier == "thorough" || os.Getenv("VERIF_RACE") != "" {
